@@ -24,6 +24,48 @@ func init() {
 
 func genC13(r *Rng, tier string, idx int) *Plan {
 	p := &Plan{Profile: "purity", Knobs: map[string]int64{}, SKnobs: map[string]string{}}
+	if idx%8 == 5 {
+		// readers next to ONE writer: 1-2 read-only commands and one write command on shared keys, some of them
+		// expired but not yet collected; the dice schedule every keyspace step and store-lock acquisition.
+		// Readers change nothing, so the final dataset must be the one the writer alone produces.
+		p.Profile = "rw"
+		g := &GenCfg{Keys: []string{"k1", "k2"}, NowMs: 946684800000, NoClock: true, NoRandom: true}
+		p.Init = g.SeedOps(r, r.Range(2, 6))
+		for _, k := range g.Keys {
+			if r.Chance(0.6) {
+				p.Init = append(p.Init, Op{Args: []string{"EXPIRE", k, "-10"}})
+			}
+		}
+		n := r.Range(2, 3)
+		p.Knobs["clients"] = int64(n)
+		p.Knobs["tcp"] = int64(r.Intn(2))
+		for c := 0; c < n-1; {
+			a := g.Cmd(r)
+			if r.Chance(0.4) {
+				a = append([]string{"MGET"}, keysN(r, g, 1, 3)...)
+			}
+			if sp := specByName[strings.ToUpper(a[0])]; sp == nil || sp.Write || sp.Random || sp.Name == "TTL" || sp.Name == "PTTL" {
+				continue
+			}
+			p.Ops = append(p.Ops, Op{C: c, Args: a})
+			c++
+		}
+		k := Pick(r, g.Keys)
+		var w []string
+		switch r.Intn(5) {
+		case 0:
+			w = []string{"MSET", "k1", Pick(r, defaultVals), "k2", Pick(r, defaultVals)}
+		case 1:
+			w = []string{"RPUSH", k, "x"}
+		case 2:
+			w = []string{"SADD", k, "m"}
+		default:
+			w = []string{"SET", k, Pick(r, defaultVals)}
+		}
+		p.Ops = append(p.Ops, Op{Kind: "writer", C: n - 1, Args: w})
+		p.Dice = drawDice(r, 64)
+		return p
+	}
 	if idx%4 == 3 {
 		// concurrent readers: 2-3 read-only commands on shared keys (some of them expired but not yet collected),
 		// every keyspace step and store-lock acquisition scheduled by the dice
@@ -61,8 +103,29 @@ func genC13(r *Rng, tier string, idx int) *Plan {
 			}
 			p.Ops = append(p.Ops, Op{C: r.Intn(2), Args: a})
 		case x < 85:
-			st := Pick(r, []string{"SUNIONSTORE", "SINTERSTORE", "SDIFFSTORE", "SMOVE", "LMOVE", "RENAME", "ZUNIONSTORE", "ZDIFFSTORE", "ZRANGESTORE"})
-			p.Ops = append(p.Ops, Op{Kind: "alias", C: r.Intn(2), Args: specByName[st].Gen(r, g), N: int64(r.Intn(2))})
+			st := Pick(r, []string{"SUNIONSTORE", "SINTERSTORE", "SDIFFSTORE", "SMOVE", "LMOVE", "LMOVE", "RENAME", "ZUNIONSTORE", "ZDIFFSTORE", "ZRANGESTORE"})
+			a := specByName[st].Gen(r, g)
+			if st == "LMOVE" && len(a) > 2 && r.Chance(0.7) {
+				// both lists exist, and the source grew over several pushes, so that it has spare capacity behind
+				// its last element: the state in which a sub-slice handed to the destination is silently shared
+				src, dst := a[1], a[2]
+				if src == dst {
+					for _, k := range g.Keys {
+						if k != src {
+							dst = k
+						}
+					}
+					a[2] = dst
+				}
+				c := r.Intn(2)
+				p.Ops = append(p.Ops, Op{C: c, Args: []string{"DEL", src, dst}})
+				p.Ops = append(p.Ops, Op{C: c, Args: append([]string{"RPUSH", src}, mems(r, 1, 4)...)})
+				for j, m := 0, r.Range(1, 3); j < m; j++ {
+					p.Ops = append(p.Ops, Op{C: c, Args: []string{Pick(r, []string{"RPUSH", "RPUSH", "LPUSH"}), src, fmt.Sprintf("g%d", j)}})
+				}
+				p.Ops = append(p.Ops, Op{C: c, Args: append([]string{"RPUSH", dst}, mems(r, 1, 2)...)})
+			}
+			p.Ops = append(p.Ops, Op{Kind: "alias", C: r.Intn(2), Args: a, N: int64(r.Intn(2))})
 		default:
 			p.Ops = append(p.Ops, Op{C: r.Intn(2), Args: g.SeedOps(r, 1)[0].Args})
 		}
@@ -73,6 +136,9 @@ func genC13(r *Rng, tier string, idx int) *Plan {
 func runC13(t *testing.T, p *Plan) *Outcome {
 	if p.Profile == "readers" {
 		return runConcCore(t, p, "C13")
+	}
+	if p.Profile == "rw" {
+		return runC13RW(t, p)
 	}
 	o := &Outcome{Trivial: true}
 	var classes []string
@@ -145,31 +211,33 @@ func runC13(t *testing.T, p *Plan) *Outcome {
 					victim = srcs[0]
 				}
 				// mutate one side in place with a command of the right family
-				var mut []string
+				var muts [][]string
 				e := mid["0/"+victim]
 				switch {
 				case strings.HasPrefix(e, "set:"):
-					mut = []string{"SADD", victim, "alias-probe"}
+					muts = [][]string{{"SADD", victim, "alias-probe"}, {"SREM", victim, "a", "b", "c"}}
 				case strings.HasPrefix(e, "zset:"):
-					mut = []string{"ZADD", victim, "99", "alias-probe"}
+					muts = [][]string{{"ZADD", victim, "99", "alias-probe"}, {"ZINCRBY", victim, "7", "a"}}
 				case strings.HasPrefix(e, "list:"):
-					mut = []string{"RPUSH", victim, "alias-probe"}
+					muts = [][]string{{"RPUSH", victim, "alias-probe"}, {"LSET", victim, "0", "alias-probe2"}, {"LPUSH", victim, "alias-probe3"}, {"LSET", victim, "-1", "alias-probe4"}}
 				case strings.HasPrefix(e, "hash:"):
-					mut = []string{"HSET", victim, "alias-probe", "1"}
+					muts = [][]string{{"HSET", victim, "alias-probe", "1"}}
 				default:
 					continue
 				}
-				if mr := cl[op.C%2].DoSync(mut...); mr.IsError() || mr.Panic != "" {
-					continue
-				}
-				after := data()
-				for k, v := range mid {
-					if k == "0/"+victim {
+				for _, mut := range muts {
+					if mr := cl[op.C%2].DoSync(mut...); mr.IsError() || mr.Panic != "" {
 						continue
 					}
-					if after[k] != v {
-						fail("alias/"+name, fmt.Sprintf("op %d: after %q, changing %s with %q also changed %s: %s -> %s (destination and source share structure)", i, op.Args, victim, mut, k, trunc(v, 120), trunc(after[k], 120)))
-						break
+					after := data()
+					for k, v := range mid {
+						if k == "0/"+victim {
+							continue
+						}
+						if after[k] != v {
+							fail("alias/"+name, fmt.Sprintf("op %d: after %q, changing %s with %q also changed %s: %s -> %s (destination and source share structure)", i, op.Args, victim, mut, k, trunc(v, 120), trunc(after[k], 120)))
+							break
+						}
 					}
 				}
 				continue
@@ -203,5 +271,107 @@ func runC13(t *testing.T, p *Plan) *Outcome {
 	}
 	o.Class = strings.Join(classes, ",")
 	o.Sample = map[string]any{"classes": classes}
+	return o
+}
+
+// runC13RW: readers next to one writer (profile rw). The concurrent run's final dataset is compared with that of a
+// twin instance on which only the write command ran: read-only commands change nothing, whatever the interleaving.
+func runC13RW(t *testing.T, p *Plan) *Outcome {
+	o := &Outcome{}
+	var names []string
+	fail := func(sig, detail string) {
+		if o.Sig == "" {
+			o.Sig, o.Detail = "C13/"+sig, detail
+		}
+	}
+	br := RunBubble(t, func() {
+		s := NewSim()
+		s.logOn = true
+		s.install()
+		defer s.uninstall()
+		dice := p.NewDice()
+		n := int(p.K("clients"))
+		boot := func(id int) (*Instance, []*Client) {
+			inst, err := s.Boot(id, BaseConfig)
+			if err != nil {
+				return nil, nil
+			}
+			seed := s.NewEmbeddedClient(inst, "seed")
+			for _, op := range p.Init {
+				seed.DoSync(op.Args...)
+			}
+			cs := make([]*Client, n)
+			for i := range cs {
+				if p.K("tcp") == 1 && i == 0 {
+					cs[i] = s.NewTCPClient(inst, fmt.Sprintf("i%dc%d", id, i))
+				} else {
+					cs[i] = s.NewEmbeddedClient(inst, fmt.Sprintf("i%dc%d", id, i))
+				}
+			}
+			return inst, cs
+		}
+		inst, cs := boot(1)
+		if inst == nil {
+			fail("boot-failed", "instance construction failed")
+			return
+		}
+		pending := 0
+		for _, op := range p.Ops {
+			op := op
+			names = append(names, strings.ToUpper(op.Args[0]))
+			pending++
+			cs[op.C%n].Start(op.Args, func(r Result) {
+				pending--
+				if r.Panic != "" {
+					fail("panic/"+strings.ToUpper(op.Args[0]), r.Panic)
+				}
+			})
+		}
+		for step := 0; step < 3000 && o.Sig == ""; step++ {
+			parked := s.ParkedTasks()
+			if len(parked) == 0 {
+				break
+			}
+			tk, stuck := PickFair(parked, dice.Next(len(parked)), 300)
+			s.noteChoice(len(parked), tk.Site)
+			if stuck {
+				fail("livelock/"+tk.Site, fmt.Sprintf("task t%d spun %d times at %s", tk.ID, tk.Spins, tk.Site))
+				return
+			}
+			s.Release(tk)
+		}
+		if pending > 0 && o.Sig == "" {
+			fail("rw/never-answered", fmt.Sprintf("%d of the commands %v were never answered", pending, opsStrings(p.Ops)))
+			return
+		}
+		s.DrainAll(2000)
+		got := StripExpired(inst.DB.VerifDump(), nowMs(), false)
+		o.Stats = s.Stats
+		o.Sched = s.schedHash
+		o.Log = s.Log
+		s.KillInstance(1)
+		// the twin: same seeding, only the writer(s)
+		twin, tcs := boot(2)
+		if twin == nil {
+			return
+		}
+		for _, op := range p.Ops {
+			if op.Kind == "writer" {
+				tcs[op.C%n].DoSync(op.Args...)
+			}
+		}
+		want := StripExpired(twin.DB.VerifDump(), nowMs(), false)
+		s.KillInstance(2)
+		if !mapsEqual(got, want) {
+			fail("reader-changed-data/rw", fmt.Sprintf("commands %v run concurrently: the final dataset differs from the one the write command alone produces, so a read-only command changed something: %s", opsStrings(p.Ops), DiffData(got, want, "concurrent", "writer-only", 4)))
+		}
+	})
+	if br.panicVal != nil && o.Sig == "" {
+		o.Sig = "C13/panic/" + topRepoFrame(br.stack)
+		o.Detail = fmt.Sprintf("%v\n%s", br.panicVal, br.stack)
+	}
+	o.Trivial = o.Stats.MultiChoice == 0
+	o.Class = "rw|" + strings.Join(names, "+")
+	o.Sample = map[string]any{"profile": "rw", "commands": names}
 	return o
 }
